@@ -180,6 +180,13 @@ func importSets() []modset {
 		mk("chain", map[string][]string{"a": {"b"}, "b": {"c"}, "c": nil}, "ok"),
 		mk("diamond", map[string][]string{"a": {"b", "c"}, "b": {"c"}, "c": nil}, "ok"),
 		mk("dangling", map[string][]string{"a": {"zz"}}, "error"),
+		// several ill-formed references of the same kind in one set (the second one is reported - or
+		// walked past - like the first)
+		mk("dangling-twice-in-one-module", map[string][]string{"a": {"zz", "yy"}}, "error"),
+		mk("dangling-in-two-modules", map[string][]string{"y": {"m2"}, "z": {"m1"}}, "error"),
+		mk("dangling-in-two-modules-crossed", map[string][]string{"a": {"zz"}, "d": {"cc"}, "m": {"a", "d"}}, "error"),
+		mk("dangling-and-cycle", map[string][]string{"a": {"b", "zz"}, "b": {"a"}}, "error"),
+		mk("dangling-thrice", map[string][]string{"a": {"x1", "x2"}, "b": {"x3", "a"}}, "error"),
 	}
 }
 
